@@ -645,7 +645,8 @@ def c03_rates(case):
     D = (L + L.T) / 2
     n = 10
     vols = [np.full(n, 1 / n), rng.dirichlet(np.ones(n)), np.r_[0.0, 0.0, rng.dirichlet(np.ones(n - 2))], np.r_[0.91, np.full(n - 1, 0.01)]]
-    for (ph, fb), rg, f in it.product([("olivine", "olivine_A"), ("olivine", "olivine_C"), ("olivine", "olivine_E"), ("enstatite", "enstatite_AB")], (4, 6), vols):
+    flows = [(L, D), (np.diag([1.0, -0.5, -0.5]), np.diag([1.0, -0.5, -0.5]))]  # general flow; axial compression (aligned grains resolve no slip)
+    for (ph, fb), rg, f, (L, D) in it.product([("olivine", "olivine_A"), ("olivine", "olivine_C"), ("olivine", "olivine_E"), ("enstatite", "enstatite_AB")], (4, 6), vols, flows):
         A = np.concatenate([Rotation.random(n - 2, random_state=3).as_matrix(), np.eye(3)[None], np.diag([-1.0, 1.0, -1.0])[None]])
         args = (rg, getattr(core.MineralPhase, ph), getattr(core.MineralFabric, fb), n)
 
@@ -734,7 +735,8 @@ def c19_config(case):
                 if len(pr["phase_assemblage"]) != len(pr["phase_fractions"]) or abs(sum(pr["phase_fractions"]) - 1) > 1e-16:
                     problems.append("parsed phase lists inconsistent")
         # single-fault configurations must raise ConfigError
-        for extra in ('phase_fractions = [0.7, 0.31]', 'phase_fractions = [1.0]', 'phase_assemblage = ["olivine", "pyroxene"]', 'initial_olivine_fabric = "Z"'):
+        for extra in ('phase_fractions = [0.7, 0.31]', 'phase_fractions = [1.0]', 'phase_assemblage = ["olivine", "pyroxene"]', 'initial_olivine_fabric = "Z"',
+                      'phase_fractions = [0.5, 0.25, 0.25]', 'phase_assemblage = ["olivine"]', 'phase_assemblage = [0, 7]', 'phase_fractions = [0.7, 0.3, 0.0]'):
             lines = ["[input]", 'velocity_gradient = ["simple_shear_2d", "Y", "X", 5e-6]', 'locations_initial = "start.scsv"', "timestep = 1e9", "[parameters]"]
             if "assemblage" not in extra:
                 lines.append('phase_assemblage = ["olivine", "enstatite"]')
